@@ -7,7 +7,7 @@ sys.path.insert(0, os.path.dirname(os.path.dirname(os.path.abspath(__file__))))
 from vlib.common import NPROC, MachineryError
 
 ASAN_ENV = dict(os.environ, ASAN_OPTIONS="detect_leaks=1:abort_on_error=0:exitcode=23:allocator_may_return_null=1:detect_stack_use_after_return=0",
-                UBSAN_OPTIONS="print_stacktrace=0:halt_on_error=1", LSAN_OPTIONS="exitcode=0:print_suppressions=0")
+                UBSAN_OPTIONS="print_stacktrace=0:halt_on_error=1", LSAN_OPTIONS="print_suppressions=0")
 
 
 def run_model(model_exe, mode, lines, fuel=6):
